@@ -66,7 +66,7 @@ func c06CheckPost(m *bMon) {
 }
 
 func VH_C06_batch() {
-	vUnwind(10)
+	vUnwind(24)
 	m := &bMon{}
 	bConfig(m)
 	m.stop = vNondet[bool]("stop")
@@ -92,7 +92,7 @@ func VH_C06_batch() {
 
 // prep value shapes accepted by a batch: []Result, []any, typed slice, single value, nil
 func VH_C06_shapes() {
-	vUnwind(10)
+	vUnwind(24)
 	shape := vChoice("shape", 5)
 	var want int
 	seen := [4]bool{}
@@ -147,7 +147,7 @@ func VH_C06_shapes() {
 // under cancellation too, post runs only after every item has been settled: exec is observed in two
 // monitor steps, so an item in flight (or a slot written after post) is visible
 func VH_C06_cancel() {
-	vUnwind(10)
+	vUnwind(24)
 	m := &bMon{}
 	bConfig(m)
 	vAssume(m.c >= 1 && m.n >= 1)
